@@ -26,7 +26,8 @@ HCalls == { C("text", <<>>, FALSE, "tab", FALSE, FALSE), C("textopt", <<2, 1>>, 
             C("tables", <<>>, FALSE, "tab", FALSE, FALSE), C("sheet", <<2>>, FALSE, "tab", FALSE, FALSE),
             C("sheet", <<1>>, FALSE, "tab", FALSE, FALSE), C("names", <<>>, FALSE, "tab", FALSE, FALSE) }
 \* quick: one call of every kind
-HCallsQ == HCalls \ { C("textopt", <<2>>, FALSE, "tab", FALSE, FALSE), C("sheet", <<1>>, FALSE, "tab", FALSE, FALSE) }
+HCallsQ == HCalls \ { C("textopt", <<2>>, FALSE, "tab", FALSE, FALSE), C("sheet", <<1>>, FALSE, "tab", FALSE, FALSE),
+                      C("rag", <<>>, FALSE, "tab", TRUE, TRUE) }
 
 \* the workbook is emitted once per initial state, the histories refer to it by its number of cells
 EmitHist ==
